@@ -36,6 +36,23 @@ fn int_list() -> Vec<Variable> {
     INT_BOUNDARY.iter().map(|i| Variable::Int(*i)).collect()
 }
 
+fn int_list_extended() -> Vec<Variable> {
+    let mut v: Vec<i64> = INT_BOUNDARY.to_vec();
+    // digit and bit boundaries: 10^k - 1, 10^k, 10^k + 1 and 2^k - 1, 2^k, 2^k + 1 (where `ilog*`, conversions and formatting change length)
+    let mut p: i64 = 1;
+    for _ in 1..=18 {
+        p *= 10;
+        v.extend([p - 1, p, p + 1, -p]);
+    }
+    for k in [7u32, 8, 15, 16, 24, 31, 32, 33, 52, 53, 54, 62] {
+        let q = 1i64 << k;
+        v.extend([q - 1, q, q + 1]);
+    }
+    v.sort();
+    v.dedup();
+    v.into_iter().map(Variable::Int).collect()
+}
+
 fn byte_arrays() -> Vec<Variable> {
     let mk = |v: &[i64]| Variable::from(v.iter().map(|i| Variable::Int(*i)).collect::<Vec<_>>());
     let mut out = byte_arrays_fixed();
@@ -89,13 +106,13 @@ fn byte_arrays_fixed() -> Vec<Variable> {
 }
 
 /// boundary values of a parameter type
-fn boundary(t: &Ty, rng: &mut Rng) -> Vec<Variable> {
+fn boundary(t: &Ty, rng: &mut Rng, ext: bool) -> Vec<Variable> {
     match t {
-        Ty::Int => int_list(),
+        Ty::Int => if ext { int_list_extended() } else { int_list() },
         Ty::Float => FLOAT_BOUNDARY.iter().map(|f| Variable::Float(*f)).collect(),
         Ty::Str => STRINGS.iter().map(|s| Variable::String(Arc::from(*s))).collect(),
         Ty::Arr(e) if **e == Ty::Int => byte_arrays(),
-        Ty::Union(ms) => ms.iter().flat_map(|m| boundary(m, rng).into_iter().take(12)).collect(),
+        Ty::Union(ms) => ms.iter().flat_map(|m| boundary(m, rng, false).into_iter().take(12)).collect(),
         other => {
             let mut vg = ValueGen::new(rng);
             (0..8).filter_map(|_| vg.value(other, 0)).collect()
@@ -829,22 +846,36 @@ pub fn run(cfg: &Cfg, rep: &mut Report) {
         }
         let Ty::Fun(ps, _) = Ty::from_real(&fun.as_type()) else { continue };
         // boundary product (capped), then random draws
-        let lists: Vec<Vec<Variable>> = ps.iter().map(|p| boundary(p, &mut rng)).collect();
-        if lists.iter().any(Vec::is_empty) {
+        let lists0: Vec<Vec<Variable>> = ps.iter().map(|p| boundary(p, &mut rng, false)).collect();
+        if lists0.iter().any(Vec::is_empty) {
             ctx.rep.notes.push(format!("no argument values for std.{path}"));
             continue;
         }
-        let total: usize = lists.iter().map(Vec::len).product::<usize>().max(1);
-        let n_calls = if ps.is_empty() { 2 } else { per_fn };
+        // second pass: the same product over the extended int pool (digit and bit boundaries), boundary part only
+        let lists1: Vec<Vec<Variable>> = ps.iter().map(|p| boundary(p, &mut rng, true)).collect();
+        let has_int = ps.iter().any(|p| *p == Ty::Int);
         let quiet_io = path.starts_with("io.print");
+        for (pass, lists) in [lists0, lists1].into_iter().enumerate() {
+        if pass == 1 && !has_int {
+            continue;
+        }
+        let total: usize = lists.iter().map(Vec::len).product::<usize>().max(1);
+        let n_calls = if ps.is_empty() { 2 } else if pass == 1 { per_fn * 2 / 3 } else { per_fn };
         for c in 0..n_calls.min(if quiet_io { 60 } else { usize::MAX }) {
             if c % 64 == 0 && deadline.over() {
                 break;
             }
             let mut args = Vec::new();
-            if c < total.min(n_calls * 2 / 3) {
+            if pass == 1 && c >= total {
+                break;
+            }
+            if pass == 1 {
+                ctx.rep.count("extended-int-pool-calls");
+            }
+            if pass == 1 || c < total.min(n_calls * 2 / 3) {
                 // enumerate the boundary product in mixed-radix order with a stride that covers it evenly
-                let mut idx = (c as u128 * total as u128 / total.min(n_calls * 2 / 3) as u128) as usize;
+                let span = if pass == 1 { total.min(n_calls) } else { total.min(n_calls * 2 / 3) };
+                let mut idx = (c as u128 * total as u128 / span as u128) as usize;
                 for l in &lists {
                     args.push(l[idx % l.len()].clone());
                     idx /= l.len();
@@ -866,6 +897,7 @@ pub fn run(cfg: &Cfg, rep: &mut Report) {
                     ctx.text_route(path, &args, &v);
                 }
             }
+        }
         }
         cfg.checkpoint(ctx.rep);
     }
